@@ -40,6 +40,7 @@ type info struct {
 	rejected         string
 	shapes           []string
 	ncomments, inXGo int
+	outputParses     bool
 	xgo              []string
 	edges            map[string]bool
 	hash             uint64
@@ -85,6 +86,7 @@ func check(c Case) (v *vk.Verdict, in info) {
 	if err != nil {
 		return vk.Bad(in.cls("format-error", ""), "format.Source fails on a source that parses: %v", err), in
 	}
+	in.outputParses = fmtin.Valid(out, c.Class) // observation only: re-parsing is C19's clause over C19's domain
 	want, got := normAll(fmtin.CommentTexts(c.Src)), normAll(fmtin.CommentTexts(out))
 	if d := compareLists(want, got); d != nil {
 		d.Class = in.cls(d.Class, "")
@@ -232,6 +234,9 @@ func run(t failer, c Case, labels ...string) {
 	}
 	for _, x := range in.xgo {
 		vk.R.Class("xgo=" + x)
+	}
+	if v == nil && !in.outputParses {
+		vk.R.Class("observation: comments kept but output does not re-parse")
 	}
 	if survey {
 		if v != nil {
